@@ -227,3 +227,24 @@ Proof.
   - vm_compute. left; reflexivity.
 Qed.
 Print Assumptions C11_hint_range_hashes_refuted.
+
+(* ------------------------------------------------------------------ the alive shard list changes between write and read *)
+(* cpu sharded by host, 8 shards, every partition online while the row host=d is written: hash mod 8 -> shard 4. Then the
+   partition of shard 8 goes offline. The query host='d' hashes over the 7 remaining shards and consults shard 3 only;
+   shard 4 - online, holding the row - is not consulted. (Write-available-first policy; the same happens under hard-write,
+   where writes always hash over all shards and reads over the online ones.) *)
+Theorem C11_alive_set_change_refuted :
+  exists s, route_in xxh64 ex_cfg (set_alive ex_group (seq 0 8)) (ex_point 100 false) = Some s /\
+    wf_group ex_cfg (set_alive ex_group (seq 0 8)) /\ wf_group ex_cfg (set_alive ex_group (seq 0 7)) /\
+    eval_cond ex_cfg (Some (EEq 0%N s_host [100%N])) (ex_point 100 false) = true /\
+    In s (all_alive (set_alive ex_group (seq 0 7))) /\
+    ~ In (s_id s) (map s_id (target_group xxh64 repaired ex_cfg (set_alive ex_group (seq 0 7)) (Some (EEq 0%N s_host [100%N])))).
+Proof.
+  exists {| s_id := 4%N; s_min := []; s_max := [] |}.
+  split; [vm_compute; reflexivity|].
+  split; [unfold wf_group; simpl; apply incl_refl|]. split; [unfold wf_group; simpl; apply incl_refl|].
+  split; [vm_compute; reflexivity|].
+  split; [vm_compute; do 3 right; left; reflexivity|].
+  vm_compute. intros [H|[]]; discriminate.
+Qed.
+Print Assumptions C11_alive_set_change_refuted.
